@@ -132,7 +132,8 @@ ConnectR(x, c, s, dst) ==
 AcceptR(x, c, l) ==
     LET k == x.sk[c][l]  p == Peer(c)  req == Head(k.rq)
         n == Len(x.sk[c]) + 1
-        new == [NewSock("dlc") EXCEPT !.addr = k.addr, !.peer = req.ssap, !.st = "conn", !.origin = "accept"]
+        \* (ghost) the new socket belongs to the service the access point was bound under
+        new == [NewSock("dlc") EXCEPT !.addr = k.addr, !.peer = req.ssap, !.st = "conn", !.origin = "accept", !.name = k.name]
     IN [w |-> [x EXCEPT !.sk[c] = Append([@ EXCEPT ![l].rq = Tail(@)], new),
                         !.sap[c][k.addr] = <<n>> \o @,
                         !.sk[p][req.m].st = "conn", !.sk[p][req.m].peer = k.addr],
